@@ -267,11 +267,11 @@ class SimStreams:
         rr = gen_value(rng)
         b = Fraction(rng.randint(1, 6), rng.choice([1, 2]))
         if i % 4 == 0:
-            integ, cpts, what = 'trap', [('I', 0, 1, [(Fraction(0), b, Fraction(0))]), ('R', 1, 2, rr), ('C', 2, 0, val)], 'cap-ramp'
+            integ, cpts, what = 'trap', [('I', 1, 0, [(Fraction(0), b, Fraction(0))]), ('R', 1, 2, rr), ('C', 2, 0, val)], 'cap-ramp'
             exact = lambda t: b * t * t / (2 * val)   # noqa
             pick = lambda vi: vi[0]   # noqa
         elif i % 4 == 1:
-            integ, cpts, what = 'be', [('I', 0, 1, [(b, Fraction(0), Fraction(0))]), ('R', 1, 2, rr), ('C', 2, 0, val)], 'cap-step'
+            integ, cpts, what = 'be', [('I', 1, 0, [(b, Fraction(0), Fraction(0))]), ('R', 1, 2, rr), ('C', 2, 0, val)], 'cap-step'
             exact = lambda t: b * t / val   # noqa
             pick = lambda vi: vi[0]   # noqa
         elif i % 4 == 2:
